@@ -17,8 +17,12 @@ type Alias struct {
 	C *Ctx
 	// Scope limits the functions analysed.
 	Scope func(fn *ssa.Function) bool
+	// AnyType follows slices of every element type (default: only values that can hold a byte slice).
+	AnyType bool
 
 	vals    map[ssa.Value]ssa.Value // value -> provenance
+	car     map[ssa.Value]bool      // the value is a container that HOLDS an alias (slice of items, map), not the alias itself
+	carF    map[*types.Var]bool
 	fields  map[*types.Var]ssa.Value
 	rets    map[*ssa.Function]map[int]ssa.Value
 	work    []ssa.Value
@@ -33,6 +37,8 @@ func (a *Alias) init() {
 	}
 	a.inited = true
 	a.vals = map[ssa.Value]ssa.Value{}
+	a.car = map[ssa.Value]bool{}
+	a.carF = map[*types.Var]bool{}
 	a.fields = map[*types.Var]ssa.Value{}
 	a.rets = map[*ssa.Function]map[int]ssa.Value{}
 	a.loads = map[*types.Var][]ssa.Value{}
@@ -94,28 +100,74 @@ func (a *Alias) Add(v, from ssa.Value) {
 	if _, isConst := v.(*ssa.Const); isConst {
 		return
 	}
-	if !holdsBytes(v.Type(), 0) {
+	if !a.AnyType && !holdsBytes(v.Type(), 0) {
 		return
 	}
 	a.vals[v] = from
 	a.work = append(a.work, v)
 }
 
+// addCarrier marks v as a container holding an alias.
+func (a *Alias) addCarrier(v, from ssa.Value) {
+	a.init()
+	if v == nil {
+		return
+	}
+	if _, ok := a.vals[v]; ok {
+		return
+	}
+	if _, isConst := v.(*ssa.Const); isConst {
+		return
+	}
+	a.vals[v] = from
+	a.car[v] = true
+	a.work = append(a.work, v)
+}
+
+// addLike adds v with the kind (alias / container) of src.
+func (a *Alias) addLike(v, src ssa.Value) {
+	if a.car[src] {
+		a.addCarrier(v, src)
+	} else {
+		a.Add(v, src)
+	}
+}
+
 func (a *Alias) addField(f *types.Var, from ssa.Value) {
 	if f == nil {
 		return
 	}
-	if _, ok := a.fields[f]; ok {
+	carrier := a.car[from]
+	if prev, ok := a.fields[f]; ok {
+		_ = prev
+		if a.carF[f] && !carrier {
+			// the field may now hold the alias itself as well: upgrade its loads
+			a.carF[f] = false
+			for _, l := range a.loads[f] {
+				if a.car[l] {
+					delete(a.car, l)
+					a.work = append(a.work, l)
+				}
+			}
+		}
 		return
 	}
 	a.fields[f] = from
+	a.carF[f] = carrier
 	for _, l := range a.loads[f] {
-		a.Add(l, from)
+		if carrier {
+			a.addCarrier(l, from)
+		} else {
+			a.Add(l, from)
+		}
 	}
 }
 
 // Has reports whether v may alias the source.
-func (a *Alias) Has(v ssa.Value) bool { _, ok := a.vals[v]; return ok }
+func (a *Alias) Has(v ssa.Value) bool { _, ok := a.vals[v]; return ok && !a.car[v] }
+
+// Holds reports whether v is a container that may hold an alias of the source.
+func (a *Alias) Holds(v ssa.Value) bool { _, ok := a.vals[v]; return ok && a.car[v] }
 
 // Path reconstructs the provenance chain of v (source first).
 func (a *Alias) Path(v ssa.Value) []ssa.Value {
@@ -175,31 +227,41 @@ func (a *Alias) storeTo(addr ssa.Value, from ssa.Value) {
 	case *ssa.FieldAddr:
 		a.addField(fieldOfAddr(x), from)
 	case *ssa.IndexAddr:
-		// element of a slice/array: the container now carries the alias
-		a.Add(x.X, from)
+		// element of a slice/array: the container now holds the alias
+		a.addCarrier(x.X, from)
 		a.carrierBack(x.X, from)
-	case *ssa.Alloc:
-		a.Add(x, from)
-	case *ssa.Global:
-		// package-level variable: every load of it
-		a.Add(x, from)
 	default:
-		a.Add(addr, from)
+		// a local, a global or a pointer: the storage holds what was stored (alias or container)
+		a.addLike(addr, from)
 	}
 }
 
 // carrierBack: a container value (slice/map) got an aliasing element; if the container was loaded from a
-// field or local, that storage carries the alias too.
+// field or local, that storage holds a container too.
 func (a *Alias) carrierBack(cv ssa.Value, from ssa.Value) {
 	switch x := cv.(type) {
 	case *ssa.UnOp:
-		a.storeTo(x.X, from)
+		switch ad := x.X.(type) {
+		case *ssa.FieldAddr:
+			f := fieldOfAddr(ad)
+			if f != nil {
+				if _, ok := a.fields[f]; !ok {
+					a.fields[f] = from
+					a.carF[f] = true
+					for _, l := range a.loads[f] {
+						a.addCarrier(l, from)
+					}
+				}
+			}
+		default:
+			a.addCarrier(x.X, from)
+		}
 	case *ssa.Phi:
 		for _, e := range x.Edges {
-			a.Add(e, from)
+			a.addCarrier(e, from)
 		}
 	case *ssa.Slice:
-		a.Add(x.X, from)
+		a.addCarrier(x.X, from)
 		a.carrierBack(x.X, from)
 	}
 }
@@ -209,6 +271,7 @@ func (a *Alias) step(v ssa.Value) {
 	if refs == nil {
 		return
 	}
+	carrier := a.car[v]
 	for _, in := range *refs {
 		if !a.inScope(in.Parent()) {
 			continue
@@ -216,19 +279,29 @@ func (a *Alias) step(v ssa.Value) {
 		switch x := in.(type) {
 		case *ssa.Slice:
 			if x.X == v {
-				a.Add(x, v)
+				a.addLike(x, v)
 			}
 		case *ssa.Phi, *ssa.ChangeType, *ssa.MakeInterface, *ssa.TypeAssert, *ssa.ChangeInterface:
-			a.Add(x.(ssa.Value), v)
+			a.addLike(x.(ssa.Value), v)
 		case *ssa.Extract:
-			a.Add(x, v)
+			if carrier {
+				// (ok, key, value) of a range step over a container: the value is an element
+				if _, isNext := x.Tuple.(*ssa.Next); isNext {
+					if x.Index == 2 {
+						a.Add(x, v)
+					}
+					continue
+				}
+			}
+			a.addLike(x, v)
 		case *ssa.UnOp:
-			// load through an aliasing address (local variable, pointer)
-			a.Add(x, v)
+			// load through an address whose content is v's kind
+			a.addLike(x, v)
 		case *ssa.FieldAddr:
 			// field of an aliasing struct pointer is not itself an alias (field-based flow handles fields)
 		case *ssa.IndexAddr:
 			if x.X == v {
+				// the address of an element: what it holds is an element of the container (the alias), or a piece of the aliased buffer
 				a.Add(x, v)
 			}
 		case *ssa.Index:
@@ -240,23 +313,23 @@ func (a *Alias) step(v ssa.Value) {
 				a.Add(x, v)
 			}
 		case *ssa.Range:
-			a.Add(x, v)
+			a.addLike(x, v)
 		case *ssa.Next:
-			a.Add(x, v)
+			a.addLike(x, v)
 		case *ssa.Store:
 			if x.Val == v {
 				a.storeTo(x.Addr, v)
 			}
 		case *ssa.MapUpdate:
 			if x.Value == v {
-				a.Add(x.Map, v)
+				a.addCarrier(x.Map, v)
 				a.carrierBack(x.Map, v)
 			}
 		case *ssa.MakeClosure:
 			fn := x.Fn.(*ssa.Function)
 			for i, b := range x.Bindings {
 				if b == v && i < len(fn.FreeVars) {
-					a.Add(fn.FreeVars[i], v)
+					a.addLike(fn.FreeVars[i], v)
 				}
 			}
 		case *ssa.Return:
@@ -288,13 +361,13 @@ func (a *Alias) addResult(site ssa.CallInstruction, nres, i int, from ssa.Value)
 		return
 	}
 	if nres == 1 {
-		a.Add(val, from)
+		a.addLike(val, from)
 		return
 	}
 	if refs := val.Referrers(); refs != nil {
 		for _, rf := range *refs {
 			if ex, ok := rf.(*ssa.Extract); ok && ex.Index == i {
-				a.Add(ex, from)
+				a.addLike(ex, from)
 			}
 		}
 	}
@@ -379,4 +452,10 @@ func (a *Alias) call(ci ssa.CallInstruction, v ssa.Value) {
 		}
 	}
 	// unknown external callee: assume it copies (bytes.Replace, string conversions, hashing, ...)
+}
+
+// AddAny is Add for an analysis over slices of any element type.
+func (a *Alias) AddAny(v, from ssa.Value) {
+	a.AnyType = true
+	a.Add(v, from)
 }
